@@ -74,7 +74,7 @@ USES = {
     "trim": ["C01", "C12"],
     "maybe_replace": ["C01", "C16"],
     "read_and_cut_lines": ["C05"],
-    "cut_str": ["C01", "C10", "C16"],
+    "cut_str": ["C01", "C07", "C10", "C16"],
     "compress_regex": ["C16"],
     "fill_regex": ["C16"],
     "trim_regex": ["C16"],
